@@ -40,7 +40,9 @@ WALK_SHAPES_QUICK = [(['F', 'F', 'F'], [1, 2]), (['F', 'S', ('D', [])], [2, 1]),
                      ([('D', ['F', 'F']), 'F', ('D', ['F'])], [1, 2]),
                      ([('D', [('D', ['F']), 'F']), ('D', ['F']), 'F'], [1, 1, 2]),
                      # a directory next to a sibling whose name extends it ("conf", "conf.d"), the shorter one holding a subdirectory
-                     ([('D', [('D', ['F'])]), ('D', ['F'])], [1, 1, 1, 2, 1]), ([('D', ['F']), ('D', [('D', ['F'])])], [2, 1, 1, 1, 1])]
+                     ([('D', [('D', ['F'])]), ('D', ['F'])], [1, 1, 1, 2, 1]), ([('D', ['F']), ('D', [('D', ['F'])])], [2, 1, 1, 1, 1]),
+                     # 'L': a symlink that points at its sibling directory - recorded as a link, never descended into
+                     ([('D', ['F']), 'L', 'F'], [1, 1, 1, 2])]
 WALK_SHAPES_THOROUGH = WALK_SHAPES_QUICK + [
     ([('D', ['F', 'F']), 'F', ('D', ['F'])], [2, 1]), ([('D', ['F', ('D', ['F', 'F'])]), ('D', [('D', ['F'])]), 'F', 'F'], [1, 2]),
     ([('D', [('D', [('D', ['F'])]), 'F']), ('D', ['F', 'F']), 'S'], [1, 1, 2]), (['F', 'F', 'F', 'F'], [2])]
@@ -63,12 +65,12 @@ def written_index_order(rep, prog, tier, dl):
                  require=[r'event-free run'])
 
 
-def walk_order(rep, prog, tier, dl):
+def walk_order(rep, prog, tier, dl, shapes=None):
     """C11, walk clause: the real source::Iter over a directory model with symbolic names."""
     from .harness import walk as W
     from .interp import parallel_explore
-    shapes = WALK_SHAPES_QUICK if tier == 'quick' else WALK_SHAPES_THOROUGH
-    rep.bounds['walk'] = {'shapes (F file, S symlink, (D, children) directory)': [repr(s) for s, l in shapes],
+    shapes = shapes or (WALK_SHAPES_QUICK if tier == 'quick' else WALK_SHAPES_THOROUGH)
+    rep.bounds['walk'] = {'shapes (F file, S symlink, L symlink to its sibling directory, (D, children) directory)': [repr(s) for s, l in shapes],
                           'names': 'one or two symbolic code points each (any scalar value except "/" and NUL, not "." or ".."), distinct inside a directory; readdir order = model order, i.e. arbitrary'}
     rep.assumptions += ['fs::read_dir / DirEntry / symlink_metadata served by a directory model; entry_from_fs_metadata builds the entry from the model; Exclude::nothing(); no CACHEDIR.TAG']
     tot = dict(paths=0, queries=0, solver_s=0.0, nontrivial=0)
@@ -97,7 +99,7 @@ def walk_order(rep, prog, tier, dl):
         sc = {'kind': 'walk', 'tree': b['tree'], 'mirsym': {'emitted': b['emitted'], 'problems': b['problems']}}
         out, path = runner.replay(sc, 'C11_walk')
         native = out.get('emitted') or []
-        reproduced = bool(out.get('order_violations')) or sorted(native) != sorted(t.rstrip('/@') or '/' for t in b['tree'])
+        reproduced = bool(out.get('order_violations')) or sorted(native) != sorted((t.split('@')[0].rstrip('/') or '/') for t in b['tree'])
         rep.violation(key, '%s; tree %r is walked as %r' % (b['problems'][0], b['tree'], native or b['emitted']), path, reproduced)
     if inconc:
         rep.inconclusive += ['walk: ' + x for x in inconc[:4]]
@@ -927,6 +929,9 @@ def check_C01(rep, prog, tier):
     rep.bounds['backup_cases'] = [BC.case_name(c) for c in cases]
     BC.run_cases(rep, prog, cases, dl, 'C01', 'a fault-free backup records every entry with the source\'s metadata and addresses that resolve to exactly the file\'s bytes, without errors',
                  require=[r'event-free run', r'band with several hunks', r'block shared by several files', r'file split over several blocks'])
+    # the entry list those cases start from is what the real source walk produces: every entry of the tree exactly once, a symlink
+    # as a link whatever it points at (the walk obligation of C11, on a shape with a link to a sibling directory and a nested one)
+    walk_order(rep, prog, tier, dl, shapes=[([('D', ['F']), 'L', 'F'], [1, 1, 1, 2]), ([('D', [('D', ['F']), 'F']), 'S', 'F'], [1, 1, 2])])
 
 
 def _damage_obligation(rep, prog, name, mk, dl, prop, native=None):
